@@ -36,7 +36,7 @@ def build(r):
     size = r.randint(1, 40)
     ntags = r.randint(1, 5)
     tags = [-1] if r.random() < 0.15 else r.sample(range(0, 9), ntags)
-    valstyle = r.choice(["grid", "float", "mixed", "near_ties", "near_ties"])
+    valstyle = r.choice(["grid", "float", "mixed", "near_ties", "near_ties", "bigmix"])
     # "near_ties": recorded costs that differ by less than the precision declared on the individuals (a converged run): the
     # queries answer from the recorded costs, whatever their rounded, signed working copies look like; these individuals get
     # their working copies from the library's own calc_signed_costs, as Job.evaluate does
@@ -48,6 +48,13 @@ def build(r):
     for _ in range(size):
         vec = [float(r.randint(0, 3)) if valstyle != "float" and r.random() < 0.8 else r.uniform(-5, 5) for _ in range(n)]
         costs = [float(r.randint(0, 3)) if valstyle != "float" and r.random() < 0.8 else r.uniform(-5, 5) for _ in range(m)]
+        if valstyle == "bigmix":
+            # integer-valued parameters and costs (counts, ids, time stamps) beyond 2**53 next to floats: neighbouring integers
+            # are different values, whatever a float conversion makes of them
+            bm = lambda: r.choice([2 ** 53 + r.randint(0, 3), 2 ** 53 + r.randint(0, 3), -(2 ** 53) - r.randint(0, 3), float(r.randint(0, 3)),
+                                   r.randint(-3, 3), r.uniform(-5, 5)])
+            vec = [bm() for _ in range(n)]
+            costs = [bm() for _ in range(m)]
         ind = Individual(vec)
         if valstyle == "near_ties":
             costs = [b + r.randint(-4, 4) * step if r.random() < 0.85 else b + r.randint(1, 3) for b in bases]
